@@ -127,9 +127,6 @@ theorem regInv_estep {s s' : St} (h : RegInv s) (st : EStep s s') : RegInv s' :=
         unfold St.registerInner St.mapFrames St.insertValue St.mapCur
         cases s.inner <;> rfl
       rw [h1, h2]; exact h.bound
-  | setPanic site =>
-    unfold St.setPanic
-    cases s.panic <;> exact ⟨h.sync, h.sorted, h.bound⟩
 
 theorem regInv_step {s s' : St} (h : RegInv s) (st : Step s s') : RegInv s' := by
   cases st with
@@ -189,6 +186,9 @@ theorem regInv_step {s s' : St} (h : RegInv s) (st : Step s s') : RegInv s' := b
       exact h.sync b' hb'
     · simpa [St.setReturn, St.mapFrames] using h.sorted
     · simpa [St.setReturn, St.mapFrames] using h.bound
+  | setPanic site =>
+    unfold St.setPanic
+    cases s.panic <;> exact ⟨h.sync, h.sorted, h.bound⟩
 
 theorem regInv_steps {s s' : St} (h : RegInv s) (st : Steps s s') : RegInv s' := by
   induction st with
